@@ -4,7 +4,7 @@
 From stdpp Require Import gmap sets.
 From Coq Require Import ZArith.
 From SV Require Import SM.IdMan SM.IdManProofs SM.IdManSpec SM.IdManSpecProofs SM.IdLife SM.IdLifeProofs
-  SM.IdWorld SM.IdWorldProofs SM.IdNode SM.IdNodeProofs SM.IdFixupHist SM.IdFixupHistProofs SM.IdNest SM.IdNestProofs SM.IdNodeMaps SM.IdNodeMapsProofs SM.IdAllProofs Gen.IdSites_gen.
+  SM.IdWorld SM.IdWorldProofs SM.IdNode SM.IdNodeProofs SM.IdFixupHist SM.IdFixupHistProofs SM.IdNest SM.IdNestProofs SM.IdNodeMaps SM.IdNodeMapsProofs SM.IdCtor SM.IdCtorProofs SM.IdAllProofs Gen.IdSites_gen.
 Open Scope Z_scope.
 
 (** Release discipline read from the source census (Gen/IdSites_gen.v). *)
@@ -47,6 +47,23 @@ Definition parse_program : list pstep :=
                             | GPEntities => PEntities | GPReleasePlaceholder => PReleasePlaceholder end) parse_steps.
 (** VMF.parse itself releases no ID (the placeholder's ID is given back by its destructor, once). *)
 Definition parse_releases_nothing : bool := prog_ok parse_program.
+
+(** Round 5: the constructor of every ID-bearing class as a step list of SM/IdCtor.v (attrs classes: the generated __init__ field by
+    field, validators, __attrs_post_init__), with the shape of its destructor (releases self.id at all / only under an ownership flag). *)
+Definition ctor_step_of (g : ctor_step) : cstep :=
+  match g with GCStoreRaw => CStoreRaw | GCMayRaise => CMayRaise | GCRegister => CRegister | GCSetOwned => CSetOwned end.
+Definition ctor_models : list (list cstep * bool * bool) :=
+  List.map (λ r : kind * String.string * list ctor_step * bool * bool, (List.map ctor_step_of r.1.1.2, r.1.2, r.2)) ctor_classes.
+Definition ctor_model_of (k : kind) : list (list cstep * bool * bool) :=
+  List.map (λ r : kind * String.string * list ctor_step * bool * bool, (List.map ctor_step_of r.1.1.2, r.1.2, r.2))
+           (List.filter (λ r : kind * String.string * list ctor_step * bool * bool, kind_eqb k r.1.1.1.1) ctor_classes).
+(** At no point where a constructor can raise does [self.id] hold an ID that the object has not registered while the destructor
+    would release it; a completed object holds a registered ID. *)
+Definition constructors_fail_safely : bool := ctors_ok ctor_models.
+(** copy.copy() of an object whose class has a releasing destructor goes through copy() (hence the constructor): no object comes into
+    being with the fields -- ID, ownership flag -- of another one. *)
+Definition copy_module_copies_are_real_copies : bool := forallb snd shallow_copy_sites.
+Definition constructor_fails_safely (k : kind) : bool := ctors_ok (ctor_model_of k) && negb (Nat.eqb (length (ctor_model_of k)) 0).
 
 (** The allocator scan always terminates (pigeonhole on the used set). *)
 Theorem c08_get_id_total : ∀ d s, is_Some (get_id d s).
@@ -289,12 +306,46 @@ Theorem c08_one_map_all_kinds : ∀ hn hg hv hm fl fo m,
   copy_to_dest KGroup = true → copy_to_dest KVis = true →
   node_release_on_remove = false → node_copy_registers = true →
   fixup_init_requires_positive = true → fixup_init_defers_reinsertion = true →
-  parse_releases_nothing = true →
+  parse_releases_nothing = true → constructors_fail_safely = true → copy_module_copies_are_real_copies = true →
   let wn := trun (release_on_remove KEnt) (release_on_remove KSolid) (release_on_remove KFace)
                  (copy_to_dest KEnt) (copy_to_dest KSolid) (copy_to_dest KFace) parse_program hn in
-  uniq_pos (live_ids_in m (tE wn)) ∧ uniq_pos (live_ids_in m (tS wn)) ∧ uniq_pos (live_ids_in m (tF wn)) ∧
-  uniq_pos (live_ids_in m (wrun (release_on_remove KGroup) (copy_to_dest KGroup) hg)) ∧
-  uniq_pos (live_ids_in m (wrun (release_on_remove KVis) (copy_to_dest KVis) hv)) ∧
-  uniq_pos (nids (nents (mmap (mrun node_realloc_on_add node_release_on_remove node_release_in_del node_copy_registers hm) m))) ∧
-  FxInv (fx_hist fixup_init_requires_positive fixup_init_defers_reinsertion fl fo).
-Proof. intros hn hg hv hm fl fo m -> -> -> -> -> -> -> -> -> -> -> -> -> -> Hp. exact (all_kinds_unique hn hg hv hm fl fo _ _ m parse_program Hp). Qed.
+  (uniq_pos (live_ids_in m (tE wn)) ∧ uniq_pos (live_ids_in m (tS wn)) ∧ uniq_pos (live_ids_in m (tF wn)) ∧
+   uniq_pos (live_ids_in m (wrun (release_on_remove KGroup) (copy_to_dest KGroup) hg)) ∧
+   uniq_pos (live_ids_in m (wrun (release_on_remove KVis) (copy_to_dest KVis) hv)) ∧
+   uniq_pos (nids (nents (mmap (mrun node_realloc_on_add node_release_on_remove node_release_in_del node_copy_registers hm) m))) ∧
+   FxInv (fx_hist fixup_init_requires_positive fixup_init_defers_reinsertion fl fo)) ∧
+  ∀ c hc, c ∈ ctor_models → uniq_pos (klive (krun c.1.1 c.1.2 c.2 (negb copy_module_copies_are_real_copies) hc)).
+Proof. intros hn hg hv hm fl fo m -> -> -> -> -> -> -> -> -> -> -> -> -> -> Hp Hc Hr. rewrite Hr. exact (all_kinds_unique_r5 hn hg hv hm fl fo _ _ m parse_program ctor_models Hp Hc). Qed.
+
+(** Round 5.  Constructors that FAIL.  For EVERY step list that passes [ctor_ok] -- in particular for the five read from the source when
+    the obligation [constructors_fail_safely] holds -- after EVERY history of constructor calls with arbitrary desired IDs that run to
+    completion or raise at any one of the points where they can raise (a converter or validator inside the attrs-generated __init__, a
+    statement of a hand-written one), with the caller catching the exception and carrying on, and of destructor calls of complete and of
+    half-built objects at any later time: the complete objects that still exist have pairwise distinct positive IDs, each handed out to
+    that object by the manager. *)
+Theorem c08_failed_constructors_unique : ∀ steps dr dg es, ctor_ok steps dr dg = true → copy_module_copies_are_real_copies = true →
+  let w := krun steps dr dg (negb copy_module_copies_are_real_copies) es in
+  NoDup (klive w) ∧ (∀ i, i ∈ klive w → 0 < i) ∧ ∀ o, o ∈ cobjs w → cdone o = true → hreg (ch o) = true ∧ is_Some (hid (ch o)).
+Proof. intros steps dr dg es H ->. exact (failed_ctor_unique dr dg steps es H). Qed.
+(** The premise is necessary.  An attrs class whose [id] field is followed by a field with a converter, [__attrs_post_init__] registering
+    the ID, and a destructor that releases whatever [self.id] holds (seeded fault c08_8; the pinned tree's Solid with its visgroup_ids
+    converter): brushes 1 and 2 exist, a constructor call that asks for 2 raises in the converter, the half-built object dies, the
+    next brush is handed 2 again.  With the ownership flag, or without a releasing destructor, the same history is harmless. *)
+Theorem c08_failed_constructor_refuted :
+  klive (krun attrs_raw_then_convert true false false failed_ctor_history) = [1; 2; 2] ∧
+  klive (krun attrs_guarded true true false failed_ctor_history) = [1; 2; 3] ∧
+  klive (krun attrs_raw_then_convert false false false failed_ctor_history) = [1; 2; 3].
+Proof. exact failed_ctor_refuted. Qed.
+(** The second premise is necessary too: when copy.copy() is left to the default protocol, the copy of brush 1 is a second brush with ID 1;
+    once the copy dies its destructor releases 1 (the flag was copied with the other fields) and the next brush is handed 1 while the
+    original holds it.  The same history with a __copy__ that goes through copy(): 1, 2. *)
+Theorem c08_shallow_copy_refuted :
+  klive (krun attrs_guarded true true true [KNew (-1) None; KAlias 0]) = [1; 1] ∧
+  klive (krun attrs_guarded true true true [KNew (-1) None; KAlias 0; KDel 1; KNew (-1) None]) = [1; 1] ∧
+  klive (krun attrs_guarded true true false [KNew (-1) None; KAlias 0; KDel 1; KNew (-1) None]) = [1; 2].
+Proof. exact shallow_alias_refuted. Qed.
+Theorem c08_constructor_shapes :
+  ctor_ok attrs_raw_then_convert true false = false ∧ ctor_ok attrs_raw_then_convert false false = true ∧
+  ctor_ok attrs_guarded true true = true ∧ ctor_ok direct_register true false = true ∧
+  ctor_ok [CSetOwned; CStoreRaw; CMayRaise; CRegister] true true = false ∧ ctor_ok [CStoreRaw; CMayRaise] false false = false.
+Proof. exact shapes_ok. Qed.
